@@ -130,6 +130,7 @@ type State struct {
 	script   threadScript
 	ctxChans map[int]bool // channels returned by ctx.Done()
 	wgCount  map[int]int
+	assumedDone map[int]bool
 }
 
 func (st *State) clone() *State {
@@ -160,6 +161,7 @@ func (st *State) clone() *State {
 	n.script = st.script
 	n.ctxChans = st.ctxChans
 	n.wgCount = st.wgCount
+	n.assumedDone = st.assumedDone
 	if st.ghost != nil {
 		n.ghost = map[string]int{}
 		for k, v := range st.ghost {
